@@ -69,7 +69,8 @@ def encode(layout, c):
     struct.pack_into('<HHHHH', hdr, 2, c['npoints'], c['nchan'] * c['nsub'], c['first'], (c['first'] + nfr - 1) & 0xFFFF, c['gap'])
     struct.pack_into('<I', hdr, 12, c['scale_bits'])
     struct.pack_into('<HHI', hdr, 16, data_block, c['nsub'], int(c['rate'], 16))
-    struct.pack_into('<HHHH', hdr, 294, 0, 0, 0x3039, c['nev'])
+    kw = c.get('keywords', (0, 0, 0x3039))
+    struct.pack_into('<HHHH', hdr, 294, kw[0], kw[1], kw[2], c['nev'])
     for i in range(18): struct.pack_into('<I', hdr, 304 + 4 * i, int(c['evtime'][i], 16))
     for i in range(9): struct.pack_into('<H', hdr, 376 + 2 * i, c['evdisp'][i])
     for i in range(18): hdr[396 + 4 * i:396 + 4 * i + len(c['evlab'][i])] = c['evlab'][i]
@@ -184,7 +185,7 @@ def decode(buf, strict=True):
     g = groups_of(recs)
     out = dict(zeros=z, paddr=paddr, records=recs, groups=g, npoints=npoints, nmeas=nmeas, first=first, last=last, gap=gap,
                scale_bits=scale_bits, dstart=dstart, nsub=nsub, rate='%08x' % rate, nev=nev, evtime=evtime, evdisp=evdisp, evlab=evlab,
-               nblocks=nblocks, four=four)
+               nblocks=nblocks, four=four, keylab=keylab, keyblk=keyblk)
     data_off = base + 512 * nblocks
     issues = []
     def issue(comp, msg): issues.append((comp, msg))
